@@ -118,17 +118,7 @@ theorem good_view (w : World) (o : Nat) (h : Good w) : Good (w.view o).1 := by
     simp only [hx]
     exact good_vlists _ _ h1
 
-theorem good_proxy (w : World) (o : Nat) (h : Good w) : Good (w.proxy o).1 := by
-  unfold World.proxy
-  have h1 := good_newObj w h
-  cases hx : w.newObj.1.obj? o with
-  | none => simpa [hx] using h1
-  | some x =>
-    cases hy : w.newObj.1.obj? w.newObj.2 with
-    | none => simpa [hx, hy] using h1
-    | some y =>
-      simp only [hx, hy]
-      exact good_setViews _ _ _ _ hy h1
+theorem good_proxy (w : World) (o : Nat) (h : Good w) : Good (w.proxy o).1 := good_newObj w h
 
 theorem good_mut (w : World) (o : Nat) (m : Mut) (h : Good w) : Good (w.mut o m) := by
   cases m with
